@@ -158,7 +158,10 @@ theorem writevCore_of_many (g : Cfg) (s : S) (bs : List Bytes) (k : KAns) (h : 1
       kernel, the slices are queued;
     * more than IOV_MAX non-empty slices on an empty queue: NOT accepted — the call returns `(0, err)` with the
       kernel's error (not the overflow error), nothing is accepted or sent and the connection is closed.
-    So the listed assumption "Writev passes ≤ IOV_MAX non-empty slices" is needed exactly in the third case. -/
+    So the listed assumption "Writev passes ≤ IOV_MAX non-empty slices" is needed exactly in the third case.
+    `iovMax`, `iovCount`, `iovAns` are definitions of this file (specification side), not of the model: the theorem is
+    about `writev g s bs (iovAns bs k)`, i.e. the caller supplies the transformed answer; the driver never applies
+    `iovAns`, and the Go side of the EINVAL case is not sampled (the generator uses 0–6 slices). -/
 theorem c17_fits_writev_iovmax_partial (g : Cfg) (s : S) (bs : List Bytes) (k : KAns) (hr : Reach g s)
     (hc : s.closed = false) (hk : k ≠ .fail) (hfit : fits g s (total bs)) :
     let r := writev g s bs (iovAns bs k)
@@ -242,7 +245,8 @@ theorem c17_sendfile_nodup_no_overflow (g : Cfg) (s : S) (off len : Nat) (ks : L
     descriptor can be duplicated. When it can not, a `Sendfile` that fits (it always does: file ranges are not held
     bytes) may fail — but never with the overflow error, and it consumes nothing of the budget: if the connection is
     still open afterwards the queue and the counter are exactly as before (the range was either transmitted whole,
-    `(sendRange, nil)`, or nothing of it was queued, `(0, err)`); otherwise the connection is closed. -/
+    `(sendRange, nil)`, or nothing of it was queued, `(0, err)`); otherwise the connection is closed. Hypotheses: a
+    reachable state and well-formed sendfile answers `KWF ks` (no "0 bytes, no error" for a non-empty request). -/
 theorem c17_fits_sendfile_nodup_partial (g : Cfg) (s : S) (off len : Nat) (ks : List KAns) (hr : Reach g s)
     (hk : KWF ks) :
     let r := sendfileNoDupOp g s off len ks
